@@ -73,10 +73,10 @@ def err_double(kind, o, t):
         return 0.0
     s = abs(o) + abs(t)
     try:
-        e = 200.0 * delta / s
+        e = 200.0 * delta / s if math.isfinite(s) and math.isfinite(200.0 * delta) else math.nan
     except (OverflowError, ZeroDivisionError):
         e = math.nan
-    if not math.isfinite(e):          # documented range is [0;200]
+    if not math.isfinite(e):          # an intermediate overflowed: the documented value, in [0;200]
         e = float(200 * abs(Fraction(t) - Fraction(o)) / (abs(Fraction(o)) + abs(Fraction(t))))
     return e
 
@@ -245,6 +245,9 @@ def gen_pair(rng):
     if r < 0.70:
         m = rng.choice([1e150, 1e154, 1e160, 1e200, 1e300, 1e307, 1e308])
         return D(rng.choice([1, -1]) * m * rng.random()), D(rng.choice([1, -1, 0]) * m * rng.random())
+    if r < 0.72:
+        a = rng.choice([1, -1]) * rng.uniform(8.9e307, 1.79e308)
+        return D(a), D(a * (1 - rng.choice([1e-2, 1e-3, 1e-6, 1e-12])))
     if r < 0.75:
         m = rng.choice([1e-300, 1e-307, 1e-310, 1e-320])
         return D(m * rng.random()), D(rng.choice([1, -1, 0]) * m * rng.random())
@@ -354,6 +357,9 @@ def fixed_cases():
                     "rows": [[D(DBL_MAX), D(0.0), D(-DBL_MAX), 3], [D(DBL_MAX), D(0.0), D(-DBL_MAX), 0], [D(1.0), D(0.0), D(1.0), 0]]})
         out.append({"kind": k, "classes": 0, "prog": "X", "rows": [[D(1e306), D(0.0), D(-1e306), 0]]})
         out.append({"kind": k, "classes": 0, "prog": "X", "rows": [[D(1e306), D(0.0), D(-1e306), 0]] * 3})
+        # |a| + |t| overflows although 200 * |t - a| does not
+        out.append({"kind": k, "classes": 0, "prog": "X", "rows": [[D(1.7e308), D(0.0), D(1.699e308), 0]]})
+        out.append({"kind": k, "classes": 0, "prog": "X", "rows": [[D(-9.1e307), D(0.0), D(-9.0e307), 0], [D(1.0), D(0.0), D(2.0), 0]]})
         out.append({"kind": k, "classes": 0, "prog": "X", "rows": [["v", D(0.0), D(1.0), 2 ** 64 - 1], ["v", D(0.0), D(2.0), 7]]})
         out.append({"kind": k, "classes": 0, "prog": "X", "rows": [[D(1.5), D(0.0), D(1.5), 5]] * 4})
         out.append({"kind": k, "classes": 0, "prog": "X", "rows": [[D(0.0), D(0.0), D(0.0), 5], [D(5e-324), D(0.0), D(0.0), 5]]})
@@ -564,6 +570,9 @@ def run(ck):
             shrunk_keys.add(key)
             small = shrink(c, harness, key) if not ck.replay_path else c
             so, _ = run_harness([harness_line(small)])
+            sres = parse_harness(so[0])
+            if sres is not None:              # describe the minimised case, not the original one
+                what = next((w for kk, w in judge(small, sres) if kk == key), what)
             ck.add_violation(key, what, {"case": small, "impl": so[0], "model_on_original_case": mo[:400], "original_case_rows": len(c.get("rows", [])),
                                          "harness_line": harness_line(small)})
         if mo.strip() != impl_canon.strip():
